@@ -162,6 +162,17 @@ func checkC01Rest(c *core.Ctx) {
 	r16 := c.Rule("R1.6", "D", "progress: a decoder that hands data[n:] to the next decoder has n >= 1 proven (or at least not refuted)")
 	payloadProgress(c, r16)
 
+	{
+		r18 := c.Rule("R1.8", "D", "no consistent path through a decoder or renderer dereferences a pointer that the path's own nil test found nil")
+		set := map[*ssa.Function]bool{}
+		for fn := range roots.DecReach {
+			set[fn] = true
+		}
+		for fn := range roots.AccReach {
+			set[fn] = true
+		}
+		nilPathScan(c, r18, core.SortedFns(set))
+	}
 	r15 := c.Rule("R1.5", "D", "renderers are total on what decoders publish: no unguarded dereference of a pointer field decoders may leave nil")
 	unset := nilDerefScan(c, r15)
 
